@@ -87,3 +87,9 @@ package feldman
 // wfVVin(v): representation invariant of a verification vector received in a message (non-nil vectors are
 // well formed); established by the CBOR decoder through NewVerificationVector.
 //@ pure func wfVVin(v *VerificationVector) bool = v != nil ==> wfVV(v)
+
+// Representation invariants assumed for values of these types entering a function (established by their
+// constructors / decoders): a verification vector wraps a well-formed module-valued matrix; an MSP a well-formed matrix.
+//@ pure func wfMSPin(m *msp.MSP) bool = m != nil ==> wfM(m.Matrix())
+//@ typeinv feldman.VerificationVector: wfVVin
+//@ typeinv msp.MSP: wfMSPin
